@@ -1,6 +1,7 @@
 package main
 
 import (
+	"go/types"
 	"fmt"
 	"go/token"
 	"strings"
@@ -278,6 +279,16 @@ func ruleFormatPadding(w *World, r *RuleResult) {
 			}
 		}
 		if split {
+			// the sign, the text and the padding travel between the helpers in the fields of one struct type:
+			// the values are identified by (struct type, field) instead of by SSA value
+			if verdict, detail, decided := w.formatPaddingByFields(f); decided {
+				if verdict {
+					r.ok(key, w.pos(f.Pos()), detail, true)
+				} else {
+					r.bad(key, w.pos(f.Pos()), detail)
+				}
+				return
+			}
 			r.ok(key, w.pos(f.Pos()), "Format writes through helpers of its own; the correspondence between the lengths counted and the bytes written is not decided for this shape", false)
 			return
 		}
@@ -450,4 +461,186 @@ func ruleMinusOverridesZero(w *World, r *RuleResult) {
 	if n == 0 {
 		r.ok("(*Decimal).Format | '-' overrides '0'", w.pos(f.Pos()), "no write of a \"0\" padding found: this shape is not decided", false)
 	}
+}
+
+type fieldID struct {
+	t types.Type
+	i int
+}
+
+// fieldOfLoad: v is a load of a field of a struct defined in the package.
+func (w *World) fieldOfLoad(v ssa.Value) (fieldID, bool) {
+	ld, ok := v.(*ssa.UnOp)
+	if !ok || ld.Op != token.MUL {
+		return fieldID{}, false
+	}
+	fa, ok := ld.X.(*ssa.FieldAddr)
+	if !ok {
+		return fieldID{}, false
+	}
+	pt := pointee(fa.X.Type())
+	if pt == nil {
+		return fieldID{}, false
+	}
+	if n, isN := pt.(*types.Named); !isN || n.Obj().Pkg() == nil || n.Obj().Pkg().Path() != apdPath {
+		return fieldID{}, false
+	}
+	return fieldID{pt, fa.Field}, true
+}
+
+// formatPaddingByFields decides C14.R7 for a Format split into helpers that share a struct: every padding
+// count written comes from a field P; every store into P subtracts len of the field that is written as the
+// sign and len of the field that is written as the text, and no store to those two fields can follow it.
+func (w *World) formatPaddingByFields(f *ssa.Function) (bool, string, bool) {
+	var bufs, signs, pads []fieldID
+	leafFields := func(v ssa.Value) []fieldID {
+		var out []fieldID
+		seen := map[ssa.Value]bool{}
+		var walk func(v ssa.Value, d int)
+		walk = func(v ssa.Value, d int) {
+			if seen[v] || d > 8 {
+				return
+			}
+			seen[v] = true
+			if id, ok := w.fieldOfLoad(v); ok {
+				out = append(out, id)
+				return
+			}
+			if phi, ok := v.(*ssa.Phi); ok {
+				for _, e := range phi.Edges {
+					walk(e, d+1)
+				}
+			}
+			// a local variable: the values stored into it
+			if ld, ok := v.(*ssa.UnOp); ok && ld.Op == token.MUL {
+				if al, isA := ld.X.(*ssa.Alloc); isA {
+					for _, st := range storesIn(al.Parent()) {
+						if st.Addr == ssa.Value(al) {
+							walk(st.Val, d+1)
+						}
+					}
+				}
+			}
+		}
+		walk(v, 0)
+		return out
+	}
+	closure := w.closureFuncs(f)
+	for _, g := range closure {
+		for _, c := range callsIn(g) {
+			cc := c.Common()
+			if cc.IsInvoke() && cc.Method.Name() == "Write" && len(cc.Args) == 1 {
+				bufs = append(bufs, leafFields(cc.Args[0])...)
+			}
+			if h := callee(c); h != nil && w.shortName(h) == "writeMultiple" && len(cc.Args) == 3 {
+				if k, ok := cc.Args[2].(*ssa.Const); ok && ci(k) == 1 {
+					signs = append(signs, leafFields(cc.Args[1])...)
+				} else {
+					pads = append(pads, leafFields(cc.Args[2])...)
+				}
+			}
+		}
+	}
+	if len(bufs) == 0 || len(signs) == 0 || len(pads) == 0 {
+		return false, "", false
+	}
+	has := func(list []fieldID, id fieldID) bool {
+		for _, x := range list {
+			if x.i == id.i && types.Identical(x.t, id.t) {
+				return true
+			}
+		}
+		return false
+	}
+	// len(<field>) terms of a value
+	var lenFields func(v ssa.Value, d int, seen map[ssa.Value]bool) []fieldID
+	lenFields = func(v ssa.Value, d int, seen map[ssa.Value]bool) []fieldID {
+		if seen[v] || d > 10 {
+			return nil
+		}
+		seen[v] = true
+		var out []fieldID
+		switch x := v.(type) {
+		case *ssa.BinOp:
+			out = append(out, lenFields(x.X, d+1, seen)...)
+			out = append(out, lenFields(x.Y, d+1, seen)...)
+		case *ssa.Phi:
+			for _, e := range x.Edges {
+				out = append(out, lenFields(e, d+1, seen)...)
+			}
+		case *ssa.Convert:
+			out = append(out, lenFields(x.X, d+1, seen)...)
+		case *ssa.Call:
+			if b, ok := x.Common().Value.(*ssa.Builtin); ok && b.Name() == "len" && len(x.Common().Args) == 1 {
+				out = append(out, leafFields(x.Common().Args[0])...)
+			}
+		case *ssa.UnOp:
+			if x.Op == token.MUL {
+				if al, isA := x.X.(*ssa.Alloc); isA {
+					for _, st := range storesIn(al.Parent()) {
+						if st.Addr == ssa.Value(al) {
+							out = append(out, lenFields(st.Val, d+1, seen)...)
+						}
+					}
+				}
+			}
+		}
+		return out
+	}
+	n := 0
+	var bad []string
+	for _, g := range closure {
+		for _, st := range storesIn(g) {
+			fa, ok := st.Addr.(*ssa.FieldAddr)
+			if !ok {
+				continue
+			}
+			pt := pointee(fa.X.Type())
+			if pt == nil || !has(pads, fieldID{pt, fa.Field}) {
+				continue
+			}
+			if k, isK := st.Val.(*ssa.Const); isK && ci(k) == 0 {
+				continue
+			}
+			n++
+			lf := lenFields(st.Val, 0, map[ssa.Value]bool{})
+			okS, okB := false, false
+			for _, id := range lf {
+				if has(signs, id) {
+					okS = true
+				}
+				if has(bufs, id) {
+					okB = true
+				}
+			}
+			if !okB {
+				bad = append(bad, "the padding stored at "+w.instrPos(st)+" does not subtract the length of the text field that is written")
+			}
+			if !okS {
+				bad = append(bad, "the padding stored at "+w.instrPos(st)+" does not subtract the length of the sign field that is written")
+			}
+			// the sign and the text are final when they are measured
+			for _, st2 := range storesIn(g) {
+				fa2, ok2 := st2.Addr.(*ssa.FieldAddr)
+				if !ok2 || st2 == st {
+					continue
+				}
+				pt2 := pointee(fa2.X.Type())
+				if pt2 == nil {
+					continue
+				}
+				id2 := fieldID{pt2, fa2.Field}
+				if (has(signs, id2) || has(bufs, id2)) && (st.Block() == st2.Block() && instrIndex(st2) > instrIndex(st) || st.Block() != st2.Block() && reaches(st.Block(), st2.Block())) {
+					bad = append(bad, "the sign or the text is stored again at "+w.instrPos(st2)+" after the padding was computed from its length")
+				}
+			}
+		}
+	}
+	if n == 0 {
+		return false, "", false
+	}
+	if len(bad) > 0 {
+		return false, strings.Join(uniqStrings(bad), "; "), true
+	}
+	return true, fmt.Sprintf("%d padding computations, each width − len(sign field written) − len(text field written), measured after the last store of either (values identified by struct field across Format's helpers)", n), true
 }
